@@ -5,6 +5,9 @@ HERE = os.path.dirname(os.path.abspath(__file__))
 # id -> (built?, level, technique, level text, level note, design ref)
 RACE = "Go race detector (-race build, GORACE log parsed, reports de-duplicated)"
 T = {
+ "C01": (True, "exploration", "reference-model monitor: real router/handler pipeline vs segment-wise template matcher over generated descriptions x hostile request targets parsed by net/http's own parser (and real loopback TCP)",
+         "Seeded exploration of API descriptions x request targets x methods through the real RoutesHandler; every response is judged by a matcher written from the statement (designated operation, decoded parameter texts by name, 405+Allow set, 404). Held on the executions produced; two template shapes the router does not support are recorded as known findings.",
+         "trusts net/http's request parser and url.PathUnescape as the definition of 'what net/http can deliver' and 'percent-decoded', the reference matcher, and loads/analysis for description loading", "DESIGN.md §4 C01"),
  "C05": (True, "exploration", "differential monitor: real denco router vs naive per-pattern reference matcher over seeded pattern sets x hostile paths x build orders",
          "Seeded exploration of pattern sets (up to thousands of records) x insertion orders x hostile lookup paths; every lookup is judged by a reference matcher written from the statement (soundness, completeness, static and literal precedence, totality, order independence). Held-on-what-was-run, not a proof.",
          "trusts the 60-line reference matcher and Go's runtime; patterns using ':' '*' '#' as literals are outside the router's syntax and are not generated", "DESIGN.md §4 C05"),
